@@ -34,6 +34,16 @@ else:
         t.snapshot_manager.delete_snapshot(arg["snapshot"])
     elif op == "gc":
         t.garbage_collect(grace_period_ms=0)
+    elif op == "recreate":
+        # the table directory is dropped and created again IN THE SAME PROCESS; only the last append (after the marker) is judged
+        import shutil
+        t.append_records(tablekit.rows(1, start=400, tag="life1"))
+        del t
+        shutil.rmtree(path)
+        t = tablekit.create(path)
+        t.append_records(tablekit.rows(1, start=410, tag="life2a"))
+        open(path + ".MARK", "w").close()
+        t.append_records(tablekit.rows(2, start=420, tag="life2b"))
 '''
 
 LINE = re.compile(r"^(\d+)\s+(\w+)\((.*)\)\s+=\s+(-?\d+)(.*)$")
@@ -41,12 +51,13 @@ UNFINISHED = re.compile(r"^(\d+)\s+(\w+)\((.*) <unfinished \.\.\.>$")
 RESUMED = re.compile(r"^(\d+)\s+<\.\.\. (\w+) resumed>(.*)\)\s+=\s+(-?\d+)(.*)$")
 
 
-def run_traced(op, path, arg, workdir):
+def run_traced(op, path, arg, workdir, env_extra=None):
     out = os.path.join(workdir, f"strace-{op}.txt")
     cmd = ["strace", "-f", "-y", "-s", "0", "-e", "trace=openat,write,pwrite64,writev,fsync,fdatasync,rename,renameat,renameat2,unlink,unlinkat",
            "-o", out, sys.executable, "-c", CHILD, op, path, json.dumps(arg)]
     env = dict(os.environ)
     env["PYTHONPATH"] = "/verif"
+    env.update(env_extra or {})
     p = subprocess.run(cmd, capture_output=True, text=True, env=env, timeout=300)
     if p.returncode != 0:
         raise RuntimeError(f"traced child failed: {p.stderr[-800:]}")
@@ -126,6 +137,10 @@ def abstract(lines, root):
                     meta.append(("write", m.group(2)))
         elif name in ("fsync", "fdatasync"):
             m = FD.match(args)
+            if m and re.match(r"^\d+<[^>]*>\(deleted\)", args):
+                # the descriptor refers to an inode that no longer has this name (a directory removed and created again): syncing it
+                # persists nothing about the path
+                continue
             if m and inside(m.group(2)):
                 p = m.group(2)
                 if os.path.isdir(p):
